@@ -20,7 +20,9 @@
 #ifndef KIND
 #define KIND 2
 #endif
+#ifndef NK
 #define NK 3
+#endif
 m_ctx_t *vf_the_ctx;
 m_ctx_t *m_ctx(void) { return vf_the_ctx; }
 void fetch_ms(uint64_t *val, uint64_t *ctr) { *val = nondet_u64(); if (ctr) (*ctr)++; }
@@ -50,35 +52,36 @@ static void mk_key(key_t_ *k, int i) { (void)i; *k = nondet_int(); VF_ASSUME(*k 
 static _Bool k_same(const key_t_ *a, const key_t_ *b) { return *a == *b; }
 static _Bool k_diff(const key_t_ *a, const key_t_ *b) { return *a != *b; }
 static int k_reg(m_mod_t *m, key_t_ *k, m_src_flags f) { return m_mod_src_register_fd(m, *k, f & ~(M_SRC_PRIO_LOW | M_SRC_PRIO_NORM), NULL); }
-static int k_dereg(m_mod_t *m, key_t_ *k) { return m_mod_src_deregister_fd(m, *k); }
+static int k_dereg(m_mod_t *m, key_t_ *k, int i) { (void)i; return m_mod_src_deregister_fd(m, *k); }
 #elif KIND == 2     /* timer: the period identifies it; same period + same clock is certainly the same timer */
 typedef m_src_tmr_t key_t_;
 static void mk_key(key_t_ *k, int i) { (void)i; memset(k, 0, sizeof(*k)); k->clock_id = nondet_int(); k->ns = nondet_u64(); VF_ASSUME(k->ns > 0); }
 static _Bool k_same(const key_t_ *a, const key_t_ *b) { return a->ns == b->ns && a->clock_id == b->clock_id; }
 static _Bool k_diff(const key_t_ *a, const key_t_ *b) { return a->ns != b->ns; }
 static int k_reg(m_mod_t *m, key_t_ *k, m_src_flags f) { return m_mod_src_register_tmr(m, k, f, NULL); }
-static int k_dereg(m_mod_t *m, key_t_ *k) { return m_mod_src_deregister_tmr(m, k); }
+static int k_dereg(m_mod_t *m, key_t_ *k, int i) { (void)i; return m_mod_src_deregister_tmr(m, k); }
 #elif KIND == 3     /* signal */
 typedef m_src_sgn_t key_t_;
 static void mk_key(key_t_ *k, int i) { (void)i; k->signo = nondet_uint(); VF_ASSUME(k->signo > 0); }
 static _Bool k_same(const key_t_ *a, const key_t_ *b) { return a->signo == b->signo; }
 static _Bool k_diff(const key_t_ *a, const key_t_ *b) { return a->signo != b->signo; }
 static int k_reg(m_mod_t *m, key_t_ *k, m_src_flags f) { return m_mod_src_register_sgn(m, k, f, NULL); }
-static int k_dereg(m_mod_t *m, key_t_ *k) { return m_mod_src_deregister_sgn(m, k); }
+static int k_dereg(m_mod_t *m, key_t_ *k, int i) { (void)i; return m_mod_src_deregister_sgn(m, k); }
 #elif KIND == 4     /* path: strings of 1..2 characters, compared by content */
 typedef m_src_path_t key_t_;
 static char pbuf[2 * NK][3];
 static void mk_key(key_t_ *k, int i) {
-    pbuf[i][0] = (char)nondet_uchar(); pbuf[i][1] = (char)nondet_uchar(); pbuf[i][2] = 0;
+    for (int c = 0; c < 2; c++) { int v = nondet_uchar(); pbuf[i][c] = (char)(v < 128 ? v : v - 256); }   /* any char value */
+    pbuf[i][2] = 0;
     VF_ASSUME(pbuf[i][0] != 0);
     k->path = pbuf[i]; k->events = nondet_uint(); VF_ASSUME(k->events > 0);
 }
 static _Bool k_same(const key_t_ *a, const key_t_ *b) { return a->path[0] == b->path[0] && a->path[1] == b->path[1]; }
 static _Bool k_diff(const key_t_ *a, const key_t_ *b) { return !k_same(a, b); }
 static int k_reg(m_mod_t *m, key_t_ *k, m_src_flags f) { return m_mod_src_register_path(m, k, f, NULL); }
-static int k_dereg(m_mod_t *m, key_t_ *k) {
+static int k_dereg(m_mod_t *m, key_t_ *k, int i) {
     /* deregistration names the path by content: another buffer, other event mask */
-    int i = (int)(k->path - &pbuf[0][0]) / 3;
+    (void)k;
     memcpy(pbuf[NK + i], pbuf[i], 3);
     m_src_path_t d = { pbuf[NK + i], nondet_uint() };
     return m_mod_src_deregister_path(m, &d);
@@ -89,7 +92,7 @@ static void mk_key(key_t_ *k, int i) { (void)i; k->pid = nondet_int(); k->events
 static _Bool k_same(const key_t_ *a, const key_t_ *b) { return a->pid == b->pid; }
 static _Bool k_diff(const key_t_ *a, const key_t_ *b) { return a->pid != b->pid; }
 static int k_reg(m_mod_t *m, key_t_ *k, m_src_flags f) { return m_mod_src_register_pid(m, k, f, NULL); }
-static int k_dereg(m_mod_t *m, key_t_ *k) { return m_mod_src_deregister_pid(m, k); }
+static int k_dereg(m_mod_t *m, key_t_ *k, int i) { (void)i; return m_mod_src_deregister_pid(m, k); }
 #elif KIND == 6     /* task: "unique task id", any int; tasks cannot be deregistered by key */
 typedef m_src_task_t key_t_;
 int task_fn(void *p) { (void)p; return 0; }
@@ -123,7 +126,7 @@ static void mk_key(key_t_ *k, int i) {
 static _Bool k_same(const key_t_ *a, const key_t_ *b) { return a->inactive_ms == b->inactive_ms && a->activity_freq == b->activity_freq; }
 static _Bool k_diff(const key_t_ *a, const key_t_ *b) { return !k_same(a, b); }
 static int k_reg(m_mod_t *m, key_t_ *k, m_src_flags f) { return m_mod_src_register_thresh(m, k, f, NULL); }
-static int k_dereg(m_mod_t *m, key_t_ *k) { return m_mod_src_deregister_thresh(m, k); }
+static int k_dereg(m_mod_t *m, key_t_ *k, int i) { (void)i; return m_mod_src_deregister_thresh(m, k); }
 #else
 #error "KIND"
 #endif
@@ -153,7 +156,7 @@ int vf_main(void) {
     /* deregistration by key: what does m_bst_remove see */
     for (int j = 0; j < NK; j++) {
         rec = &rm[j];
-        r = k_dereg(mod, &key[j]);
+        r = k_dereg(mod, &key[j], j);
         VF_CHECK(r == 0, "deregistration reaches the tree");
     }
 #endif
